@@ -772,8 +772,14 @@ impl DnsListenerHandler {
         Ok(())
     }
 
+    /* The most a UDP datagram can carry over IPv4 (65535 octets less the IPv4 and UDP headers; IPv6
+     * allows 20 more).  A client may advertise a larger EDNS payload size, but a larger datagram
+     * cannot be sent at all, so a reply that size has to be truncated instead.
+     */
+    const MAX_UDP_PAYLOAD: usize = 65507;
+
     fn prepare_to_send(pkt: &dnspkt::DNSPkt, size: usize) -> Vec<u8> {
-        let size = std::cmp::max(size, 512);
+        let size = size.clamp(512, Self::MAX_UDP_PAYLOAD);
         pkt.serialise_with_size(size)
     }
 
